@@ -106,6 +106,10 @@ class RecObserver(Observer):
             self.rec.ev(["UPD", self.idx, "LOG", text, bool(flag)])
         elif notification_type == NotificationType.PETRI_NET:
             self.rec.ev(["UPD", self.idx, "NET", data])
+            sid = getattr(self.rec.s, "scheduler_uuid", None)
+            if data != sid:
+                # the notice must carry the scheduler's id (C17)
+                self.rec.ev(["UPD", self.idx, "NETID", "%r instead of %r" % (data, sid)])
         else:
             self.rec.ev(["UPD", self.idx, "OTHER", str(notification_type)])
         hook = self.rec.update_hook
